@@ -3,6 +3,7 @@ package run
 import (
 	"context"
 	"fmt"
+	stdnet "net"
 	stdsync "sync"
 	"time"
 
@@ -54,6 +55,7 @@ type H1 struct {
 	Plugs   map[string]*Plug
 	order   []string
 	Script  Script
+	ndials  int
 
 	// runtime side
 	Pods               []*api.PodSandbox
@@ -97,7 +99,8 @@ type Plug struct {
 	StartErr error
 	Started  bool
 	Closed   int // OnClose calls
-	DialIdx  int // position in the listener's accept order
+	DialIdx  int // position of the current connection in the listener's accept order
+	Redials  int
 	SyncUpd  []*api.ContainerUpdate
 	cfgSeen  int
 }
@@ -196,12 +199,27 @@ func (h *H1) updFn(ctx context.Context, u []*api.ContainerUpdate) ([]*api.Contai
 func (h *H1) AddPlugin(name, idx string, mask api.EventMask) *Plug {
 	p := &Plug{h: h, Name: name, Idx: idx, Mask: mask}
 	h.mu.Lock()
-	p.DialIdx = len(h.order)
+	p.DialIdx = h.ndials
+	h.ndials++
 	h.order = append(h.order, name)
 	h.Plugs[name] = p
 	h.mu.Unlock()
 	p.Conn = h.L.Dial("p" + idx + name)
-	st, err := stub.New(p, stub.WithPluginName(name), stub.WithPluginIdx(idx), stub.WithConnection(p.Conn),
+	// the first session uses the connection made here; a restarted stub dials again
+	redial := func(string) (stdnet.Conn, error) {
+		h.mu.Lock()
+		p.DialIdx = h.ndials
+		h.ndials++
+		p.Redials++
+		n := p.Redials
+		h.mu.Unlock()
+		c := h.L.Dial(fmt.Sprintf("p%s%s.%d", idx, name, n))
+		h.mu.Lock()
+		p.Conn = c
+		h.mu.Unlock()
+		return c, nil
+	}
+	st, err := stub.New(p, stub.WithPluginName(name), stub.WithPluginIdx(idx), stub.WithConnection(p.Conn), stub.WithDialer(redial),
 		stub.WithOnClose(func() { h.mu.Lock(); p.Closed++; h.mu.Unlock() }))
 	if err != nil {
 		panic(err)
@@ -215,7 +233,8 @@ func (h *H1) AddPlugin(name, idx string, mask api.EventMask) *Plug {
 func (h *H1) AddCustomPlugin(name, idx string, impl any) *Plug {
 	p := &Plug{h: h, Name: name, Idx: idx}
 	h.mu.Lock()
-	p.DialIdx = len(h.order)
+	p.DialIdx = h.ndials
+	h.ndials++
 	h.order = append(h.order, name)
 	h.Plugs[name] = p
 	h.mu.Unlock()
